@@ -635,9 +635,11 @@ fn run_main(args: &[String]) -> i32 {
     let t0 = Instant::now();
     let batch = run_batch(&prop, tier, seed, total, workers, 1);
     // determinism self-check: re-execute 5% of the indices in other worker processes
-    let recheck_n = (total / 20).max(1).min(total);
+    // (C05's reproducibility clause is decided by this re-check: 25 % there)
+    let every: u64 = if prop.id == "C05" { 4 } else { 20 };
+    let recheck_n = (total / every).max(1).min(total);
     let w2 = if workers > 3 { workers - 3 } else { 1 };
-    let batch2 = run_batch(&prop, tier, seed, recheck_n, w2, 20);
+    let batch2 = run_batch(&prop, tier, seed, recheck_n, w2, every);
     let wall = t0.elapsed().as_secs_f64();
 
     let mut hash_by_idx: BTreeMap<u64, String> = BTreeMap::new();
